@@ -76,7 +76,7 @@ where
 /// Verification hook (only with `--cfg similar_verif`): runs one middle-snake
 /// search on fresh `V` arrays and returns its result together with the final
 /// contents of the forward and backward arrays.
-#[cfg(similar_verif)]
+#[cfg(all(similar_verif, not(similar_verif_no_internals)))]
 #[allow(clippy::type_complexity)]
 pub fn verif_find_middle_snake<Old, New>(
     old: &Old,
